@@ -12,14 +12,36 @@ import (
 // buildWalkSpec: a compiled spec with nn symbolic nodes ("n0".."n<nn-1>") plus "error". Each node is
 // drawn from templates: terminal; message branching with one or two vocabulary branches; an action node
 // (bindings branching) with a deterministic stub and one branch; a bindings-branching node without
-// action.  Targets range over the nodes and one missing name.
-func buildWalkSpec(nn int, log *stubLog) *Spec {
+// action; message branching whose guard fails (branch evaluation errors).  Targets range over the nodes
+// and one missing name.  The spec's error node is empty, or consumes messages itself (selectively, or
+// with a failing guard).
+func buildWalkSpec(nn int, log *stubLog, errors bool) *Spec {
 	names := []string{"n0", "n1", "n2"}[:nn]
 	targets := append(append([]string{}, names...), "gone")
 	s := &Spec{Name: "walk", Nodes: map[string]*Node{"error": {}}, ErrorNode: "error", compiled: true}
+	et := 0
+	if errors {
+		// (focused slice: the machine does reach the error node and the error node consumes messages)
+		et = 1 + verif.Choose("error.template", 2)
+	}
+	switch et {
+	case 1: // the error node waits for a particular message to recover
+		s.Nodes["error"] = &Node{Branches: &Branches{Type: "message", Branches: []*Branch{{Pattern: map[string]interface{}{"a": "n1"}, Target: "n0"}}}}
+	case 2: // the error node consumes messages but evaluating its branch fails again
+		g := &stubSpec{name: "error.guard", kind: aFail}
+		s.Nodes["error"] = &Node{Branches: &Branches{Type: "message", Branches: []*Branch{{Pattern: map[string]interface{}{"a": "?x"}, Guard: g.action(log), Target: "n0"}}}}
+	}
 	for _, name := range names {
 		n := &Node{}
-		tmpl := verif.Choose(name+".template", 6)
+		tmpl := 0
+		if errors && name == "n0" {
+			// the first node fails: failing guard at a message node, or a failing action
+			tmpl = []int{6, 4}[verif.Choose(name+".template", 2)]
+		} else if errors {
+			tmpl = []int{0, 2, 6}[verif.Choose(name+".template", 3)]
+		} else {
+			tmpl = verif.Choose(name+".template", 6)
+		}
 		target := ""
 		if tmpl > 0 {
 			target = targets[verif.Choose(name+".target", len(targets))]
@@ -38,8 +60,11 @@ func buildWalkSpec(nn int, log *stubLog) *Spec {
 			st := &stubSpec{name: name + ".act", kind: aFail}
 			n.Action = st.action(log)
 			n.Branches = &Branches{Type: "bindings", Branches: []*Branch{{Target: target}}}
-		default: // bindings branching without action: moves while ?x is bound
+		case 5: // bindings branching without action: moves while ?x is bound
 			n.Branches = &Branches{Type: "bindings", Branches: []*Branch{{Pattern: map[string]interface{}{"?x": "?v"}, Target: target}}}
+		case 6: // message branching whose guard fails: evaluating the branch is an error
+			g := &stubSpec{name: name + ".guard", kind: aFail}
+			n.Branches = &Branches{Type: "message", Branches: []*Branch{{Pattern: map[string]interface{}{"a": "?x"}, Guard: g.action(log), Target: target}}}
 		}
 		s.Nodes[name] = n
 	}
@@ -61,14 +86,17 @@ func sameState(a, b *State) bool {
 	return verif.And(a.NodeName == b.NodeName, verif.JSONEqual(map[string]interface{}(a.Bs), map[string]interface{}(b.Bs)))
 }
 
-func c05Inputs() (s *Spec, st *State, msgs []interface{}) {
+func c05Inputs(errors bool) (s *Spec, st *State, msgs []interface{}) {
 	nn := 2
 	km := 2
 	if verif.Tier() > 0 {
 		km = 3
 		nn = 3
 	}
-	s = buildWalkSpec(nn, nil)
+	if errors {
+		nn, km = 2, 3
+	}
+	s = buildWalkSpec(nn, nil, errors)
 	st = &State{NodeName: "n0", Bs: match.Bindings(verif.AnyMap("bs", smallBindingsOpts()))}
 	k := verif.Choose("nmsgs", km+1)
 	for i := 0; i < k; i++ {
@@ -81,9 +109,15 @@ func c05Inputs() (s *Spec, st *State, msgs []interface{}) {
 
 // VerifC05Walk: accounting of one Walk: ordered exactly-once consumption, step bound, truthful remainder,
 // chaining of strides, quiescence on completion.
-func VerifC05Walk() {
+func VerifC05Walk() { c05Walk(false) }
+
+// VerifC05Errors: the same accounting for machines that fail (failing guard at a message node, failing
+// action) under a spec whose own error node consumes messages (selectively, or failing again).
+func VerifC05Errors() { c05Walk(true) }
+
+func c05Walk(errors bool) {
 	verif.MapOrderInsertion(true)
-	s, st, msgs := c05Inputs()
+	s, st, msgs := c05Inputs(errors)
 	limit := verif.Choose("limit", 5)
 	ctl := &Control{Limit: limit}
 	bpNode := ""
@@ -162,9 +196,14 @@ func VerifC05Walk() {
 // VerifC05Split: delivering the messages in two consecutive batches gives the same final state and the
 // same emitted messages, in the same order, as delivering them at once (when neither the limit nor a
 // breakpoint intervenes).
-func VerifC05Split() {
+func VerifC05Split() { c05Split(false) }
+
+// VerifC05SplitErrors: batch-split equivalence for failing machines with a consuming error node.
+func VerifC05SplitErrors() { c05Split(true) }
+
+func c05Split(errors bool) {
 	verif.MapOrderInsertion(true)
-	s, st, msgs := c05Inputs()
+	s, st, msgs := c05Inputs(errors)
 	ctl := &Control{Limit: 8}
 	verif.Assume(len(msgs) > 0)
 	j := verif.Choose("split", len(msgs)+1)
